@@ -61,7 +61,11 @@ class FileSystemLoader(BaseLoader):
 
         for path in self.search_path:
             source_path = path.joinpath(template_path)
-            if not source_path.is_file():
+            try:
+                if not source_path.is_file():
+                    continue
+            except OSError:
+                # A name the file system refuses. One that is too long, for example.
                 continue
             return source_path
         raise TemplateNotFoundError(template_name)
